@@ -78,12 +78,30 @@ def gkey(e):
     return tuple((g[0], g[1]) for g in e.guards)
 
 
+def _user_closure_in_local_closure(fn):
+    """the user's closure (a parameter) is called from inside a closure defined in the function (`let fit_on_tail = |..| fit_closure(..)`):
+    the tracer records that call once, at the definition, outside every loop - the order of events it reports is not the
+    order of execution"""
+    from .facts import pat_bindings as _pb, walk as _w, strip as _s
+    pids = {b["local"] for p_ in fn["params"] for b in _pb(p_)}
+    for y in _w(fn["body"]):
+        if y.get("k") == "Closure":
+            for z in _w(y["body"]):
+                if z.get("k") == "Call" and _s(z["f"]).get("k") == "Path" and _s(z["f"]).get("local") in pids:
+                    return True
+    return False
+
+
 def rule_pair(ctx):
     res = RuleResult("R-C01-pair", "in-place block swaps before the user closure are undone after it on every path (iter_fold)")
     F = ctx.facts()
     for fn in the_fn(res, F, "iter_fold", "DatasetBase"):
         tr = Tracer(fn, inline=ctx.inliner()).run()
         key = fn_key(fn)
+        if _user_closure_in_local_closure(fn):
+            res.instance("%s : call of the closure parameter" % key)
+            res.undecided("%s : closure-call-in-local-closure" % key, "the user's closure is called through a closure defined in the function: where that runs relative to the swaps is not modelled (fail closed)", fn_loc(fn))
+            continue
         ccalls = [e for e in tr.events if e.kind == "call" and e.callee_local in tr.param_locals]
         if len(ccalls) != 1:
             res.undecided("%s : closure-call" % key, "expected exactly one call of the user closure, found %d" % len(ccalls), fn_loc(fn))
@@ -258,7 +276,7 @@ def rule_agree(ctx):
         ns = None
         for fam in ("records", "targets"):
             if fam not in views:
-                res.violate("%s : no-train-view:%s" % (key, fam), "training view over the %s buffer not found" % fam, fn_loc(fn))
+                res.undecided("%s : no-train-view:%s" % (key, fam), "training view over the %s buffer not recognised (fail closed)" % fam, fn_loc(fn))
                 continue
             rows, off, e = views[fam]
             if rows is None or off is None:
@@ -490,9 +508,24 @@ def rule_mean(ctx):
             ik = k(i.recv)
             src = k(i.args[0])
             counters = [x.op for x in walk_terms(i.recv) if isinstance(x, Term) and x.op.startswith(("loopvar:", "cparam:"))]
+            paired = False
+            if ik.startswith(("loopvar:", "cparam:")):
+                # `for (model, mut row) in models.iter().zip(scores.axis_iter_mut(Axis(0)))`: the row comes paired with its model
+                from .c17 import for_loops as _fl
+                from .facts import walk as _w2
+                for it_, pat_, body_, node_ in _fl(fn["body"]):
+                    if any(z is i.node for z in _w2(body_)):
+                        nms = [z["name"] for z in _w2(it_) if z.get("k") == "MethodCall"]
+                        if "zip" in nms and any(nm in nms for nm in ("axis_iter_mut", "rows_mut", "outer_iter_mut", "genrows_mut")) and not any(nm in nms for nm in ("rev", "skip", "cycle", "step_by")):
+                            paired = True
             if i.loops and ("index_axis_mut" in ik or "index(" in ik or "row_mut" in ik) and counters:
                 res.ok()
                 res.instance("%s : per-model add_assign into row %s" % (key, counters[0]))
+            elif paired:
+                res.ok()
+                res.instance("%s : per-model add_assign into the row zipped with its model" % key)
+            elif not ("index_axis_mut" in ik or "index(" in ik or "row_mut" in ik):
+                res.undecided("%s : model-accumulation" % key, "destination of the per-model add_assign not recognised: %s (fail closed)" % short(ik), fn_loc(fn, i.node["ln"]))
             else:
                 res.violate("%s : model-accumulation" % key, "per-model evaluation is not added to the row of its own model index: %s" % short(ik), fn_loc(fn, i.node["ln"]))
             res.ok()
